@@ -205,14 +205,16 @@ func signSection(x *h.X) {
 			x.Fail("wire", "%s: signature lacks prefix %x", cfg, pre)
 			return nil, nil, false
 		}
-		if total(ds) != sd.draw {
+		if total(ds) < sd.draw { // more entropy than the randomizer needs (additional hedging, guards) is fine
 			x.Fail("short-draw", "%s: Sign drew %d bytes of entropy (%v), the scheme's randomizer has %d", cfg, total(ds), ds, sd.draw)
 		}
 		body := sig[len(pre):]
 		switch sd.kind {
 		case "mldsa":
+			// exact form only when the call drew exactly the 32-byte rnd of FIPS 204 (another way of forming rnd from
+			// more entropy is not judged here; the signature's validity is C10's subject)
 			want, err := mldsaref.SignWithRandom(mlRef, signed, "", stream)
-			if err != nil || !bytes.Equal(body, want) {
+			if len(stream) == 32 && (err != nil || !bytes.Equal(body, want)) {
 				x.Fail("sig-not-function-of-draw", "%s: signature is not ML-DSA.Sign_internal(sk, M', rnd = drawn %x) as computed by the Go standard library (err %v)", cfg, stream, err)
 			}
 		case "pss":
@@ -302,5 +304,19 @@ func signSection(x *h.X) {
 			images = append(images, sig)
 		}
 	}
-	distinct(x, "signature-ignores-drawn-byte", desc, "signatures under tapes differing in one drawn byte (index 0 = unmodified tape)", images)
+	// full length, tolerant form: at least sd.draw drawn bytes must each influence the signature; drawn bytes beyond
+	// that may be surplus
+	insensitive := 0
+	for _, im := range images[1:] {
+		if bytes.Equal(im, images[0]) {
+			insensitive++
+		}
+	}
+	drawn := 0
+	for _, dd := range firstDs {
+		drawn += dd.N
+	}
+	if surplus := (drawn - sd.draw) * len(masks); insensitive > surplus {
+		x.Fail("signature-ignores-drawn-byte", "%s: %d of %d single-byte changes of the drawn entropy leave the signature unchanged although only %d drawn bytes are surplus (%d drawn, randomizer %d)", desc, insensitive, len(images)-1, drawn-sd.draw, drawn, sd.draw)
+	}
 }
